@@ -22,6 +22,9 @@ def run(repo, rep):
     rep.clause("C08-f", "consumers advance through the buffered stream with the same 16-byte rounding as the DMA that fills it")
     rep.clause("C08-g", "the compression cache key determines every input of the weight stream (or the input is constant for the lifetime of a cache entry)")
     rep.undecided("that the weight section decodes to the right zero-point-corrected weights (value level)")
+    from .shared import duplicate_branch_lint
+
+    duplicate_branch_lint(repo, rep, "C08-d", ['weight_compressor'])
     from .shared import mirror_families
 
     mirror_families(repo, rep, "C08-d", {('tensor', 'self', 'src_tens'): "copy of the encoded weight tensor's ranges / streams"})
